@@ -36,7 +36,7 @@ def baseline_allowed_failures():
 def run_tests(scratch):
     xml = os.path.join(scratch, "_junit.xml")
     subprocess.run([PY, "-m", "pytest", "-q", "-p", "no:cacheprovider",
-                    "-n", "8", "--timeout=900", "--junitxml=" + xml],
+                    "--timeout=900", "--junitxml=" + xml],
                    cwd=scratch, stdout=subprocess.DEVNULL,
                    stderr=subprocess.DEVNULL)
     import xml.etree.ElementTree as ET
